@@ -49,6 +49,7 @@ GROUP = {"backoff_delay": "Recon", "should_attempt_reconnect": "Recon", "record_
          "reg_clear_pending_if_timed_out": "Reg", "reg_build_reg1_for": "Reg", "reg_reg1_if_ngp_immediate": "Reg",
          "reg_handle_reg2": "Reg",
          "trk_insert": "Trk", "trk_get": "Trk",
+         "crit_extend_to": "Crit", "crit_is_critical_now": "Crit",
          "regime_from_bps": "Batch", "regime_batch_size": "Batch", "batch_queue_packet": "Batch",
          "batch_set_regime": "Batch", "conn_recompute_batch_regime": "Batch"}
 # groups with a canonical signature: parameters = the self fields read in struct declaration order, then the
@@ -106,6 +107,9 @@ LEAVES = [
     # sequence tracker ring (C05): a function of the one element that is read / written (<local>_slot says which)
     ("trk_insert", "src/sender/sequence.rs", "SequenceTracker", "insert"),
     ("trk_get", "src/sender/sequence.rs", "SequenceTracker", "get"),
+    # critical window (C10): atomics as plain fields
+    ("crit_extend_to", CORE + "priority.rs", "CriticalWindow", "extend_to"),
+    ("crit_is_critical_now", CORE + "priority.rs", "CriticalWindow", "is_critical_now"),
     # batch sender (C01): regime thresholds and the size-flush test
     ("regime_from_bps", CORE + "connection/batch_send.rs", "BatchRegime", "from_bps"),
     ("regime_batch_size", CORE + "connection/batch_send.rs", "BatchRegime", "batch_size"),
@@ -1127,6 +1131,16 @@ def ev(e, env):
         if "f64" in tys and any(t != "f64" for t in tys):
             raise TErr("conditional expression mixing f64 and %s" % [t for t in tys if t != "f64"][0])
         return r, (tys[0] if tys else None)
+    if k == "rmw":
+        _, op, rty, target, arg = e
+        nm, _ = ctx.use_field(path_of(target), atomic=True)
+        cur = env.cur(nm, (nm, rty))[0]
+        sa, ta = ev(arg, env)
+        if ta not in (rty, None):
+            raise TErr("%s of a %s into an atomic %s" % (op, ta, rty))
+        if op == "fetch_add":
+            return "((%s + %s) mod %s)" % (cur, sa, {"u64": "two64", "usize": "two64", "u32": "two32"}[rty]), rty
+        return "(Z.%s %s %s)" % (op[6:], cur, sa), rty
     if k == "string":
         raise TErr("string value")
     raise TErr("expression kind %s" % k)
@@ -1179,6 +1193,14 @@ def effect_call(e, env):
     ctx = env.ctx
     if e[0] == "call" and e[1] == "store" and path_of(e[2]) is not None and len(e[3]) == 2 and is_ordering(e[3][1]):
         return ("store", e[2], e[3][0])
+    if e[0] == "call" and e[1] in ("fetch_max", "fetch_min", "fetch_add") and path_of(e[2]) is not None and len(e[3]) == 2 \
+            and is_ordering(e[3][1]):
+        # read-modify-write of an atomic as a statement (the old value it returns is dropped):
+        # fetch_max/min = store of Z.max/Z.min, fetch_add = store of the WRAPPING sum (atomics wrap, never panic)
+        nm, rty = ctx.use_field(path_of(e[2]), atomic=True)
+        if rty not in ("u64", "usize", "u32"):
+            raise TErr("%s on an atomic %s" % (e[1], rty))
+        return ("store", e[2], ("rmw", e[1], rty, e[2], e[3][0]))
     if e[0] == "call" and e[1] == "push" and len(e[3]) == 1 and path_of(e[2]) is not None and vec_field(ctx, path_of(e[2])):
         return ("push", vec_len_name(ctx, path_of(e[2])))
     if e[0] == "call" and e[2] == ("var", "self") and (ctx.self_type, e[1]) in OPAQUE_EFFECTS:
